@@ -2494,10 +2494,321 @@ def cross_oracle(ctx, deep):
     return n, fails
 
 
+
+# ---------------------------------------------------------------------------------------------- write histories (write-only images)
+
+def telem_make(spec):
+    """a real Poly4D / CompressedStart / CompressedSegment for a spec:
+    ['poly', [[8 bits]*4], dur_bits] | ['start', [[v, x]*3], [yv, angle]] | ['seg', dms, [[v, x]..]*3, [[yv, angle]..]]"""
+    from cflib.crazyflie.mem.trajectory_memory import Poly4D, CompressedStart, CompressedSegment
+    if spec[0] == 'poly':
+        return Poly4D(f32(spec[2]), *[Poly4D.Poly([f32(b) for b in q]) for q in spec[1]])
+    if spec[0] == 'start':
+        return CompressedStart(spec[1][0][1], spec[1][1][1], spec[1][2][1], spec[2][1])
+    return CompressedSegment(spec[1] / 1000.0, [v[1] for v in spec[2][0]], [v[1] for v in spec[2][1]], [v[1] for v in spec[2][2]],
+                             [v[1] for v in spec[3]])
+
+
+def telem_assign(obj, spec):
+    """change the fields of an existing object to those of spec (same kind)"""
+    from cflib.crazyflie.mem.trajectory_memory import Poly4D
+    if spec[0] == 'poly':
+        obj.duration = f32(spec[2])
+        obj.x, obj.y, obj.z, obj.yaw = [Poly4D.Poly([f32(b) for b in q]) for q in spec[1]]
+    elif spec[0] == 'start':
+        obj.x, obj.y, obj.z, obj.yaw = spec[1][0][1], spec[1][1][1], spec[1][2][1], spec[2][1]
+    else:
+        obj.duration = spec[1] / 1000.0
+        obj.x, obj.y, obj.z = [[v[1] for v in el] for el in spec[2]]
+        obj.yaw = [v[1] for v in spec[3]]
+
+
+def telem_term(spec):
+    if spec[0] == 'poly':
+        return '(TPoly %s %s %s %s %d)' % (ZL(spec[1][0]), ZL(spec[1][1]), ZL(spec[1][2]), ZL(spec[1][3]), spec[2])
+    if spec[0] == 'start':
+        return '(TStart %s %s %s %s)' % (Z(spec[1][0][0]), Z(spec[1][1][0]), Z(spec[1][2][0]), Z(spec[2][0]))
+    return '(TSeg %d %s %s %s %s)' % (spec[1], ZL([v[0] for v in spec[2][0]]), ZL([v[0] for v in spec[2][1]]),
+                                      ZL([v[0] for v in spec[2][2]]), ZL([v[0] for v in spec[3]]))
+
+
+def telem_ref_bytes(spec):
+    """independent statement of the firmware layouts; None when a value does not fit its field"""
+    import numpy as np
+    try:
+        if spec[0] == 'poly':
+            return np.array([b for q in spec[1] for b in q] + [spec[2]], dtype='<u4').tobytes()
+        if spec[0] == 'start':
+            return struct.pack('<hhhh', spec[1][0][0], spec[1][1][0], spec[1][2][0], spec[2][0])
+        tcode = {0: 0, 1: 1, 3: 2, 7: 3}
+        out = bytes([tcode[len(spec[2][0])] | tcode[len(spec[2][1])] << 2 | tcode[len(spec[2][2])] << 4 | tcode[len(spec[3])] << 6])
+        out += struct.pack('<H', spec[1])
+        for el in spec[2] + [spec[3]]:
+            for v in el:
+                out += struct.pack('<h', v[0])
+        return out
+    except struct.error:
+        return None
+
+
+def rnd_telem(rng, kind, wide=False):
+    if kind == 'poly':
+        return ['poly', [[rnd_f32(rng) for _ in range(8)] for _ in range(4)], rnd_f32(rng)]
+    if kind == 'start':
+        return ['start', [list(rnd_i16_scaled(rng, wide)) for _ in range(3)], list(rnd_yaw(rng))]
+    while True:
+        dms = rng.choice([0, 1, 1000, 65535, rng.randrange(65536)])
+        if int((dms / 1000.0) * 1000.0) == dms:
+            break
+    return ['seg', dms, [[list(rnd_i16_scaled(rng, wide)) for _ in range(rng.choice([0, 1, 3, 7]))] for _ in range(3)],
+            [list(rnd_yaw(rng)) for _ in range(rng.choice([0, 1, 3, 7]))]]
+
+
+def traj_rnd_history(rng, wide=True):
+    """pool of piece objects + ops ['write', start_addr, [pool indices]] / ['assign', index, new spec]"""
+    compressed = rng.random() < 0.6
+    pool = []
+    if compressed:
+        pool.append(rnd_telem(rng, 'start', wide and rng.random() < 0.1))
+        for _ in range(rng.randrange(1, 5)):
+            pool.append(rnd_telem(rng, 'seg', wide and rng.random() < 0.1))
+    else:
+        for _ in range(rng.randrange(1, 4)):
+            pool.append(rnd_telem(rng, 'poly'))
+    ops = []
+    idx = list(range(len(pool)))
+    for k in range(rng.randrange(2, 5)):
+        r = rng.random()
+        if k and r < 0.3:
+            i = rng.randrange(len(pool))
+            ops.append(['assign', i, rnd_telem(rng, pool[i][0], False)])
+        if k and r > 0.8:
+            sub = sorted(rng.sample(idx, rng.randrange(1, len(idx) + 1)))
+            if compressed and 0 not in sub:
+                sub = [0] + sub
+        else:
+            sub = idx
+        ops.append(['write', rng.choice([0, 0, 132, 400, 1000, rng.randrange(0, 3000)]) if k else 0, sub])
+    return {'pool': pool, 'ops': ops}
+
+
+def traj_hist_impl(h):
+    """one TrajectoryMemory, one set of piece objects; per write: [addr, bytes, returned count] or 'raise'"""
+    from cflib.crazyflie.mem.trajectory_memory import TrajectoryMemory
+    fake = MemFake()
+    m = TrajectoryMemory(id=2, type=0x12, size=4096, mem_handler=fake)
+    objs = [telem_make(sp) for sp in h['pool']]
+    out = []
+    for op in h['ops']:
+        if op[0] == 'assign':
+            telem_assign(objs[op[1]], op[2])
+            continue
+        m.trajectory = [objs[i] for i in op[2]]
+        w0 = len(fake.writes)
+        try:
+            n = m.write_data(lambda *a: None, start_addr=op[1])
+            fake.run()
+        except (struct.error, OverflowError):
+            fake.queue[:] = []
+            out.append('raise')
+            continue
+        (addr, data, fl), = fake.writes[w0:]
+        out.append([addr, data, n, fl])
+    return out
+
+
+def traj_hist_specs(h):
+    """the field values current at each write"""
+    cur = [sp for sp in h['pool']]
+    res = []
+    for op in h['ops']:
+        if op[0] == 'assign':
+            cur = list(cur)
+            cur[op[1]] = op[2]
+        else:
+            res.append((op[1], [cur[i] for i in op[2]]))
+    return res
+
+
+def rnd_led_history(rng):
+    if rng.random() < 0.5:
+        ops = []
+        for _ in range(rng.randrange(3, 9)):
+            r = rng.random()
+            if r < 0.45:
+                ops.append(['add', rnd_timing(rng)])
+            elif r < 0.8:
+                ops.append(['write'])
+            elif r < 0.93:
+                ops.append(['replace', rng.randrange(8), rnd_timing(rng)])
+            else:
+                ops.append(['clear'])
+        return {'kind': 'timings', 'ops': ops + [['write'], ['write']]}
+    ops = []
+    for _ in range(rng.randrange(3, 9)):
+        r = rng.random()
+        if r < 0.35:
+            ops.append(['set', rng.randrange(12), rng.randrange(256), rng.randrange(256), rng.randrange(256),
+                        rng.choice([None, None, 100, 50, 1, rng.randrange(1, 101)])])
+        elif r < 0.6:
+            ops.append(['attr', rng.randrange(12), rng.randrange(256), rng.randrange(256), rng.randrange(256), rng.choice([0, 100, rng.randrange(0, 101)])])
+        else:
+            ops.append(['write'])
+    return {'kind': 'ring', 'ops': ops + [['write'], ['write']]}
+
+
+def led_hist_impl(h, quirk_set_zero=False):
+    """one memory object written repeatedly; returns (images, field values current at each write)"""
+    images, states = [], []
+    fake = MemFake()
+    if h['kind'] == 'timings':
+        from cflib.crazyflie.mem.led_timings_driver_memory import LEDTimingsDriverMemory
+        m = LEDTimingsDriverMemory(id=7, type=0x17, size=2000, mem_handler=fake)
+        cur = []
+        for op in h['ops']:
+            if op[0] == 'add':
+                t = op[1]
+                m.add(time=t[0], rgb={'r': t[1], 'g': t[2], 'b': t[3]}, leds=t[4], fade=t[5], rotate=t[6])
+                cur = cur + [t]
+            elif op[0] == 'replace':
+                if op[1] < len(cur):
+                    t = op[2]
+                    m.timings[op[1]] = {'time': t[0], 'rgb': {'r': t[1], 'g': t[2], 'b': t[3]}, 'leds': t[4], 'fade': t[5], 'rotate': t[6]}
+                    cur = cur[:op[1]] + [t] + cur[op[1] + 1:]
+            elif op[0] == 'clear':
+                m.timings = []
+                cur = []
+            else:
+                w0 = len(fake.writes)
+                m.write_data(lambda *a: None)
+                fake.run()
+                (addr, data, fl), = fake.writes[w0:]
+                images.append([addr, data, fl])
+                states.append(list(cur))
+        return images, states
+    from cflib.crazyflie.mem.led_driver_memory import LEDDriverMemory
+    m = LEDDriverMemory(id=4, type=0x10, size=24, mem_handler=fake)
+    cur = [[0, 0, 0, 100] for _ in range(12)]
+    for op in h['ops']:
+        if op[0] == 'set':
+            m.leds[op[1]].set(op[2], op[3], op[4], op[5])
+            cur = [list(c) for c in cur]
+            cur[op[1]] = [op[2], op[3], op[4], op[5] if op[5] else cur[op[1]][3]]
+        elif op[0] == 'attr':
+            led = m.leds[op[1]]
+            led.r, led.g, led.b, led.intensity = op[2], op[3], op[4], op[5]
+            cur = [list(c) for c in cur]
+            cur[op[1]] = [op[2], op[3], op[4], op[5]]
+        else:
+            w0 = len(fake.writes)
+            m.write_data(lambda *a: None)
+            fake.run()
+            (addr, data, fl), = fake.writes[w0:]
+            images.append([addr, data, fl])
+            states.append([list(c) for c in cur])
+    return images, states
+
+
+def whist_tie(ctx, cases):
+    rng = ctx.rng
+    n = ctx.scale(50, 600)
+    for i in range(n):
+        h = traj_rnd_history(rng)
+        got = traj_hist_impl(h)
+        terms, exp = [], []
+        for (start, specs), g in zip(traj_hist_specs(h), got):
+            terms.append('match traj_write %d [%s] with Some (a, img, k) => a :: k :: img | None => [-1] end'
+                         % (start, '; '.join(telem_term(sp) for sp in specs)))
+            exp.append([-1] if g == 'raise' else [g[0], g[2]] + list(g[1]))
+        cases.add('traj_history', 'flat [%s]' % '; '.join(terms), coqrun.flat(exp), {'traj_history': repr(h)[:600]},
+                  nontrivial=len(exp) >= 2)
+    for i in range(n):
+        h = rnd_led_history(rng)
+        images, states = led_hist_impl(h)
+        terms = []
+        for st in states:
+            if h['kind'] == 'timings':
+                terms.append('timings_write [%s]' % '; '.join('mk_timing %d %d %d %d %d %d %d' % (t[0], t[1], t[2], t[3], t[4], int(t[5]), t[6]) for t in st))
+            else:
+                terms.append('ring_write [%s]' % '; '.join('mk_led %d %d %d %d' % tuple(c) for c in st))
+        cases.add('led_history', 'flat [%s]' % '; '.join(terms), coqrun.flat([list(im[1]) for im in images]), {'led_history': repr(h)[:600]},
+                  nontrivial=len(images) >= 2)
+    # LED.set: None and 0 leave the intensity alone
+    for i in range(ctx.scale(10, 60)):
+        old = [rng.randrange(256), rng.randrange(256), rng.randrange(256), rng.randrange(0, 101)]
+        new = [rng.randrange(256), rng.randrange(256), rng.randrange(256), rng.choice([None, 0, 1, 100, rng.randrange(0, 101)])]
+        from cflib.crazyflie.mem.led_driver_memory import LED
+        led = LED()
+        led.r, led.g, led.b, led.intensity = old
+        led.set(*new)
+        cases.add('led_set', 'let l := led_set (mk_led %d %d %d %d) %d %d %d %s in [l_r l; l_g l; l_b l; l_int l]'
+                  % (old[0], old[1], old[2], old[3], new[0], new[1], new[2], 'None' if new[3] is None else '(Some %d)' % new[3]),
+                  [led.r, led.g, led.b, led.intensity], {'led_set': [old, new]})
+    return {'traj_history': n, 'led_history': n}
+
+
+def whist_check(c):
+    """property text on a history of writes: every image is the firmware layout of the CURRENT field values"""
+    if c['op'] == 'traj_history':
+        got = traj_hist_impl(c)
+        for k, ((start, specs), g) in enumerate(zip(traj_hist_specs(c), got)):
+            parts = [telem_ref_bytes(sp) for sp in specs]
+            want = None if any(p is None for p in parts) else b''.join(parts)
+            if want is None:
+                if g != 'raise':
+                    return {'class': 'trajectory_write_accepts_unrepresentable', 'case': c, 'expected': {'write': k, 'raises': True}, 'observed': [g[0], list(g[1])]}
+                continue
+            if g == 'raise' or g[0] != start or bytes(g[1]) != want or g[2] != len(want) or not g[3]:
+                return {'class': 'trajectory_rewrite_layout_differs' if k else 'trajectory_layout_differs', 'case': c,
+                        'expected': {'write': k, 'addr': start, 'bytes': list(want), 'count': len(want)},
+                        'observed': g if g == 'raise' else {'addr': g[0], 'bytes': list(g[1]), 'count': g[2]},
+                        'detail': 'write_data number %d through the same TrajectoryMemory / piece objects must hand over the layout of the current fields' % k}
+        return None
+    images, states = led_hist_impl(c)
+    for k, (im, st) in enumerate(zip(images, states)):
+        if c['kind'] == 'timings':
+            want = b''
+            for t in st:
+                led = _fw_rgb565(t[1], t[2], t[3])
+                rec = bytes([t[0] & 0xFF, led >> 8, led & 0xFF, (t[4] & 0x0F) | ((int(t[5]) << 4) & 0x10) | ((t[6] << 5) & 0xE0)])
+                if rec != bytes(4):
+                    want += rec
+            want += bytes(4)
+        else:
+            want = b''
+            for (r, g, b, i) in st:
+                r5 = ((((r & 0xFF) * 249 + 1014) >> 11) & 0x1F) * i // 100
+                g6 = ((((g & 0xFF) * 253 + 505) >> 10) & 0x3F) * i // 100
+                b5 = ((((b & 0xFF) * 249 + 1014) >> 11) & 0x1F) * i // 100
+                w = r5 << 11 | g6 << 5 | b5
+                want += bytes([w >> 8, w & 0xFF])
+        if im[0] != 0 or bytes(im[1]) != want or not im[2]:
+            return {'class': 'led_rewrite_layout_differs' if k else 'led_layout_differs', 'case': c,
+                    'expected': {'write': k, 'bytes': list(want)}, 'observed': {'addr': im[0], 'bytes': list(im[1])},
+                    'detail': 'write number %d through the same LED memory object must be the layout of the current content' % k}
+    return None
+
+
+def whist_oracle(ctx, deep):
+    rng = ctx.rng
+    fails, n = [], 0
+    for i in range(ctx.scale(150, 1500) * (2 if deep else 1)):
+        if i % 2 == 0:
+            c = dict(traj_rnd_history(rng, wide=(i % 10 == 0)), codec='whist', op='traj_history')
+        else:
+            c = dict(rnd_led_history(rng), codec='whist', op='led_history')
+            c['ops'] = [o for o in c['ops'] if not (o[0] == 'set' and o[5] == 0)]
+        r = whist_check(c)
+        n += 1
+        if r:
+            fails.append(r)
+    return n, fails
+
+
 # ---------------------------------------------------------------------------------------------- module interface
 
-SECTIONS_TIE = [('crc', crc_tie), ('i2c', i2c_tie), ('ow', ow_tie), ('lh', lh_tie), ('yaml', yaml_tie), ('deck', deck_tie), ('loco', loco_tie), ('traj', traj_tie), ('timings', timings_tie), ('hist', hist_tie), ('cross', cross_tie)]
-SECTIONS_ORACLE = [('i2c', i2c_oracle), ('ow', ow_oracle), ('lh', lh_oracle), ('yaml', yaml_oracle), ('deck', deck_oracle), ('loco', loco_oracle), ('misc', misc_oracle), ('hist', hist_oracle), ('cross', cross_oracle)]
+SECTIONS_TIE = [('crc', crc_tie), ('i2c', i2c_tie), ('ow', ow_tie), ('lh', lh_tie), ('yaml', yaml_tie), ('deck', deck_tie), ('loco', loco_tie), ('traj', traj_tie), ('timings', timings_tie), ('hist', hist_tie), ('cross', cross_tie), ('whist', whist_tie)]
+SECTIONS_ORACLE = [('i2c', i2c_oracle), ('ow', ow_oracle), ('lh', lh_oracle), ('yaml', yaml_oracle), ('deck', deck_oracle), ('loco', loco_oracle), ('misc', misc_oracle), ('hist', hist_oracle), ('cross', cross_oracle), ('whist', whist_oracle)]
 
 
 def _corpus():
@@ -2616,5 +2927,6 @@ def replay(payload, ctx):
 lh_check, yaml_check, deck_check, loco_check, misc_check = map(_safe, (lh_check, yaml_check, deck_check, loco_check, misc_check))
 i2c_hist_check, ow_hist_check = _safe(i2c_hist_check), _safe(ow_hist_check)
 cross_check = _safe(cross_check)
+whist_check = _safe(whist_check)
 REPLAYERS = {'lh': lambda c, ctx: lh_check(c), 'yaml': lambda c, ctx: yaml_check(c), 'deck': lambda c, ctx: deck_check(c),
-             'loco': lambda c, ctx: loco_check(c), 'misc': lambda c, ctx: misc_check(c), 'cross': lambda c, ctx: cross_check(c)}
+             'loco': lambda c, ctx: loco_check(c), 'misc': lambda c, ctx: misc_check(c), 'cross': lambda c, ctx: cross_check(c), 'whist': lambda c, ctx: whist_check(c)}
